@@ -78,7 +78,15 @@ def replay_maf(rep: Report, cases: list, rng: random.Random, budget: int):
     for c in cases:
         uniq[json.dumps(c["cfg"], sort_keys=True)] = c
     cases = list(uniq.values())
-    picked = cases if len(cases) <= budget else rng.sample(cases, budget)
+    if len(cases) <= budget:
+        picked = cases
+    else:       # one configuration from every (dim, cond_dim, depth) stratum first, the rest at random
+        strata = {}
+        for c in cases:
+            strata.setdefault((c["cfg"]["dim"], c["cfg"]["cond"], c["cfg"]["depth"]), []).append(c)
+        picked = [rng.choice(v) for _k, v in sorted(strata.items())][:budget]
+        rest = [c for c in cases if c not in picked]
+        picked += rng.sample(rest, max(0, min(len(rest), budget - len(picked))))
     for ci, c in enumerate(picked):
         cfg = c["cfg"]
         dim, cond, width, depth, npar = cfg["dim"], cfg["cond"], cfg["width"], cfg["depth"], cfg["npar"]
